@@ -391,7 +391,12 @@ func (vx *Vaxis) PostEvent(ev Event) {
 // block if the queue is full. This method should only be used from a different
 // goroutine than the main thread.
 func (vx *Vaxis) PostEventBlocking(ev Event) {
-	vx.queue <- ev
+	select {
+	case vx.queue <- ev:
+	case <-vx.chQuit:
+		// Vaxis has been closed: nobody is going to read the queue, don't
+		// leave the caller (often the input goroutine) blocked forever
+	}
 }
 
 // SyncFunc queues a function to be called from the main thread. vaxis will call
